@@ -137,7 +137,7 @@ func (e *Explorer) runOne(prefix []int, expect []Step) *Result {
 }
 
 // SplitDepth is the number of deviations after which subtrees are dealt to shards.
-const SplitDepth = 1
+const SplitDepth = 2
 
 func (e *Explorer) explore(prefix []int, expect []Step, depth int) {
 	if e.stop {
